@@ -70,6 +70,45 @@ def op_name(v, tv_rev):
     return str(v)
 
 
+def operator_alphabet(ctx, db, g, tv, tv_rev):
+    """value -> where constructed, for every operator constant passed to CPPExpression(int, CPPExpression*, …)."""
+    alphabet = {}
+    for nt, alts in g.rules.items():
+        for a in alts:
+            for act in [a.action] + a.mid_actions:
+                for m in GR.EXPR_CTOR.finditer(act or ""):
+                    op = m.group(1)
+                    if "::" in op or op == "CPPExpression" or not (op.startswith("'") or op.isupper() or "_" in op and op.upper() == op):
+                        continue
+                    if re.match(r"^\$", op):
+                        continue
+                    v = op_value(op, tv)
+                    if v is not None:
+                        alphabet.setdefault(v, "cppBison.yxx:%d (%s)" % (a.line, nt))
+    # C++ construction sites outside the grammar
+    for f in db.functions:
+        if f.name == "cppyyparse":
+            continue
+        for n in f.walk():
+            if n.get("k") in ("ctor", "new") and n.get("k") == "ctor" and n.get("f") == "CPPExpression::CPPExpression" and n.get("s", "").startswith("void (int, CPPExpression *"):
+                v = const_int(n["a"][0]) if n.get("a") else None
+                if v is not None:
+                    alphabet.setdefault(v, f.loc(n))
+    # cross-validation: clang's view of the grammar actions
+    yy = db.fn("cppyyparse")
+    clang_ops = set()
+    for n in yy.walk():
+        if n.get("k") == "ctor" and n.get("f") == "CPPExpression::CPPExpression" and n.get("s", "").startswith("void (int, CPPExpression *"):
+            v = const_int(n["a"][0]) if n.get("a") else None
+            if v is not None:
+                clang_ops.add(v)
+    gram_ops = {v for v, where in alphabet.items() if where.startswith("cppBison.yxx")}
+    if clang_ops != gram_ops:
+        ctx.broken("grammar reader and clang disagree on the operator constants built by the actions: only-reader %s, only-clang %s" % (
+            sorted(op_name(v, tv_rev) for v in gram_ops - clang_ops), sorted(op_name(v, tv_rev) for v in clang_ops - gram_ops)))
+    return alphabet
+
+
 def run(ctx):
     db = ctx.db
     g = GR.Grammar(db.meta["grammar"])
@@ -373,40 +412,7 @@ def run(ctx):
     ctx.floor("R07.3", "evaluator arms judged", n_arm, 30)
 
     # ------------------------------------------------------------ R07.4
-    alphabet = {}
-    for nt, alts in g.rules.items():
-        for a in alts:
-            for act in [a.action] + a.mid_actions:
-                for m in GR.EXPR_CTOR.finditer(act or ""):
-                    op = m.group(1)
-                    if "::" in op or op == "CPPExpression" or not (op.startswith("'") or op.isupper() or "_" in op and op.upper() == op):
-                        continue
-                    if re.match(r"^\$", op):
-                        continue
-                    v = op_value(op, tv)
-                    if v is not None:
-                        alphabet.setdefault(v, "cppBison.yxx:%d (%s)" % (a.line, nt))
-    # C++ construction sites outside the grammar
-    for f in db.functions:
-        if f.name == "cppyyparse":
-            continue
-        for n in f.walk():
-            if n.get("k") in ("ctor", "new") and n.get("k") == "ctor" and n.get("f") == "CPPExpression::CPPExpression" and n.get("s", "").startswith("void (int, CPPExpression *"):
-                v = const_int(n["a"][0]) if n.get("a") else None
-                if v is not None:
-                    alphabet.setdefault(v, f.loc(n))
-    # cross-validation: clang's view of the grammar actions
-    yy = db.fn("cppyyparse")
-    clang_ops = set()
-    for n in yy.walk():
-        if n.get("k") == "ctor" and n.get("f") == "CPPExpression::CPPExpression" and n.get("s", "").startswith("void (int, CPPExpression *"):
-            v = const_int(n["a"][0]) if n.get("a") else None
-            if v is not None:
-                clang_ops.add(v)
-    gram_ops = {v for v, where in alphabet.items() if where.startswith("cppBison.yxx")}
-    if clang_ops != gram_ops:
-        ctx.broken("grammar reader and clang disagree on the operator constants built by the actions: only-reader %s, only-clang %s" % (
-            sorted(op_name(v, tv_rev) for v in gram_ops - clang_ops), sorted(op_name(v, tv_rev) for v in clang_ops - gram_ops)))
+    alphabet = operator_alphabet(ctx, db, g, tv, tv_rev)
     ctx.floor("R07.4", "operator alphabet", len(alphabet), 32)
     for fname, sig in (("CPPExpression::evaluate", None), ("CPPExpression::determine_type", None), ("CPPExpression::output", "int")):
         fn = db.fn(fname, sig_contains=sig)
